@@ -61,7 +61,7 @@ func varargAt(cl *ssa.Call, argIdx int, i int64) ssa.Value {
 }
 
 func C20(c *Ctx) {
-	c.R.Explanation = "Decides structural necessary conditions of faithful analysis and rendering in package tools: (R1) totality — the values a compilable spec allows to be nil (the action/guard source of a native action, absent branching, the node of a missing or variable target) are tested before every dereferencing use in Analyze, Dot and Mermaid, following function literals through the call graph; (R2) one edge per branch — in each renderer's per-branch loop no way back to the loop head bypasses the edge emission, and the loop is left early only on an error edge; (R3) one node per name — node emission is memoised in a map keyed by the node name itself, and the identifier written for a node is the name or a value stored under that key (an injective function of the name); (R4) Analyze's per-branch accounting (branch count, target set, guard test) is evaluated on every iteration of the branch loop, and its per-node accounting on every iteration of the node loop. Label contents and numeric fidelity of Analyze are not decided."
+	c.R.Explanation = "Decides structural necessary conditions of faithful analysis and rendering in package tools: (R1) totality — the values a compilable spec allows to be nil (the action/guard source of a native action, absent branching, the node of a missing or variable target) are tested before every dereferencing use in Analyze, Dot and Mermaid, following function literals through the call graph; (R2) one edge per branch — in each renderer's per-branch loop no way back to the loop head bypasses the edge emission, and the loop is left early only on an error edge; (R3) one node per name — node emission is memoised in a map keyed by the node name itself, and the identifier written for a node is the name or a value stored under that key (an injective function of the name); (R4) Analyze's per-branch accounting (branch count, target set, guard test) is evaluated on every iteration of the branch loop, and its per-node accounting on every iteration of the node loop; every loop of Analyze and of the helpers it calls is left only by exhaustion (or with an error). Label contents and numeric fidelity of Analyze are not decided."
 	c.R.Rule("C20-R1", "E2", "totality on native actions and missing targets", 8)
 	c.R.Rule("C20-R2", "E3", "one edge per branch", 2)
 	c.R.Rule("C20-R3", "E5", "one node per name, identified injectively", 4)
@@ -395,6 +395,31 @@ func C20(c *Ctx) {
 			}
 		}
 		return true, ""
+	}
+	// the accounting loops run to completion: no loop of Analyze or of its helpers is left early
+	nloops := 0
+	for _, f := range anaFns {
+		for li, l := range flow.Loops(f) {
+			nloops++
+			early := ""
+			for _, ex := range l.Exits() {
+				if ex[0] == l.Header {
+					continue
+				}
+				// leaving with an error is not an accounting result
+				if ret, isRet := ex[1].Instrs[len(ex[1].Instrs)-1].(*ssa.Return); isRet && len(ret.Results) > 0 {
+					last := ret.Results[len(ret.Results)-1]
+					if types.Identical(last.Type(), types.Universe.Lookup("error").Type()) && !ssau.IsNilConst(last) {
+						continue
+					}
+				}
+				early = c.pos(ex[0].Instrs[len(ex[0].Instrs)-1])
+			}
+			c.R.Check(early == "", "C20-R4", fmt.Sprintf("%s: loop #%d runs to completion", fname(f), li+1), c.pos(l.Header.Instrs[len(l.Header.Instrs)-1]), "left only when its range is exhausted", "the loop can be left early at "+early+": members after that point are not counted (the analysis under-reports)")
+		}
+	}
+	if nloops == 0 {
+		c.R.Break("C20-R4: Analyze has no loops")
 	}
 	seenA := map[string]bool{}
 	for _, a := range anchors {
